@@ -2,30 +2,37 @@
 (* GenMech |= A-level clauses over all histories up to MaxOps operations; collects each  *)
 (* violation signature with a shortest witness and exports every complete history.       *)
 EXTENDS GenMech
-CONSTANTS MaxOps, UseGens
-VARIABLES m, a, extra1, lost, hist
-vars == <<m, a, extra1, lost, hist>>
-Init == m = MInit /\ a = AInit /\ extra1 = 0 /\ lost = 0 /\ hist = <<>>
+CONSTANTS MaxOps, UseGens, UseOvls, UseDrive
+VARIABLES m, a, extra1, lost, hist, dlen
+vars == <<m, a, extra1, lost, hist, dlen>>
+Init == m = MInit /\ a = AInit /\ extra1 = 0 /\ lost = 0 /\ hist = <<>> /\ dlen = 0
 H(op) == hist' = Append(hist, op)
-Enter(o) == /\ m.ost[o] = "new" /\ H(<<"enter", o>>) /\ m' = MEnter(m, o)
-            /\ a' = [a EXCEPT !.open = Append(@, o)] /\ UNCHANGED <<extra1, lost>>
-\* with-blocks: only the innermost open overlay can be left
-Exit(o) == /\ a.open # <<>> /\ a.open[Len(a.open)] = o /\ H(<<"exit", o>>) /\ m' = MExit(m, o)
-           /\ a' = [a EXCEPT !.open = SubSeq(@, 1, Len(@) - 1)] /\ UNCHANGED <<extra1, lost>>
-New(g) == /\ m.gst[g] = "none" /\ H(<<"new", g>>) /\ m' = MNew(m, g) /\ a' = [a EXCEPT !.gst[g] = "new"] /\ UNCHANGED <<extra1, lost>>
+\* o3 ('drive > g > a') is opened before drive is called (an overlay entered inside a running function cannot see it)
+Enter(o) == /\ m.ost[o] = "new" /\ (o = "o3" => ~a.indrive) /\ H(<<"enter", o>>) /\ m' = MEnter(m, o)
+            /\ a' = [a EXCEPT !.open = Append(@, o)] /\ UNCHANGED <<extra1, lost, dlen>>
+\* with-blocks: only the innermost open overlay can be left, and not across the boundary of the running drive call
+Exit(o) == /\ a.open # <<>> /\ a.open[Len(a.open)] = o /\ (a.indrive => Len(a.open) > dlen) /\ H(<<"exit", o>>) /\ m' = MExit(m, o)
+           /\ a' = [a EXCEPT !.open = SubSeq(@, 1, Len(@) - 1)] /\ UNCHANGED <<extra1, lost, dlen>>
+\* the rest of the history (until undrive) runs inside one call of the instrumented function drive
+Drive == /\ ~a.indrive /\ ~(\E i \in DOMAIN hist : hist[i][1] = "drive") /\ H(<<"drive", "">>) /\ m' = MDrive(m)
+         /\ a' = [a EXCEPT !.indrive = TRUE, !.o3d = IsOpen(a, "o3")] /\ dlen' = Len(a.open) /\ UNCHANGED <<extra1, lost>>
+Undrive == /\ a.indrive /\ Len(a.open) = dlen /\ H(<<"undrive", "">>) /\ m' = MUndrive(m)
+           /\ a' = [a EXCEPT !.indrive = FALSE] /\ UNCHANGED <<extra1, lost, dlen>>
+New(g) == /\ m.gst[g] = "none" /\ H(<<"new", g>>) /\ m' = MNew(m, g) /\ a' = [a EXCEPT !.gst[g] = "new"] /\ UNCHANGED <<extra1, lost, dlen>>
 Nxt(g) == /\ m.gst[g] \in {"new", "s1", "s2"} /\ H(<<"next", g>>)
           /\ LET r == MNext(m, g) IN
              /\ m' = r.m
-             /\ extra1' = extra1 + (IF r.f1 > ANextFires(a, g, "o1") \/ r.f2 > ANextFires(a, g, "o2") THEN 1 ELSE 0)
-             /\ lost' = lost + (IF r.f1 < ANextFires(a, g, "o1") \/ r.f2 < ANextFires(a, g, "o2") THEN 1 ELSE 0)
-          /\ a' = [a EXCEPT !.gst[g] = ANextState(@)]
+             /\ extra1' = extra1 + (IF \E o \in Ovls : r.f[o] > ANextFires(a, g, o) THEN 1 ELSE 0)
+             /\ lost' = lost + (IF \E o \in Ovls : r.f[o] < ANextFires(a, g, o) THEN 1 ELSE 0)
+          /\ a' = [a EXCEPT !.gst[g] = ANextState(@)] /\ UNCHANGED dlen
 End(g, how) == /\ m.gst[g] \in {"new", "s1", "s2"} /\ H(<<how, g>>) /\ m' = MEnd(m, g)
-               /\ a' = [a EXCEPT !.gst[g] = "done"] /\ UNCHANGED <<extra1, lost>>
+               /\ a' = [a EXCEPT !.gst[g] = "done"] /\ UNCHANGED <<extra1, lost, dlen>>
 CallG == /\ H(<<"callg", Len(hist) + 1>>)
-         /\ extra1' = extra1 + (IF FiresO1(m.cur) > 0 \/ FiresO2(m.cur) > ACallFires(a, "o2") THEN 1 ELSE 0)
-         /\ lost' = lost + (IF FiresO2(m.cur) < ACallFires(a, "o2") THEN 1 ELSE 0)
-         /\ UNCHANGED <<m, a>>
-Next == \/ \E o \in Ovls : Enter(o) \/ Exit(o)
+         /\ extra1' = extra1 + (IF \E o \in Ovls : Fires(m.cur, o) > ACallFires(a, o) THEN 1 ELSE 0)
+         /\ lost' = lost + (IF \E o \in Ovls : Fires(m.cur, o) < ACallFires(a, o) THEN 1 ELSE 0)
+         /\ UNCHANGED <<m, a, dlen>>
+Next == \/ \E o \in UseOvls : Enter(o) \/ Exit(o)
+        \/ (UseDrive /\ (Drive \/ Undrive))
         \/ \E g \in UseGens : New(g) \/ Nxt(g) \/ End(g, "close") \/ End(g, "drop")
         \/ CallG
 Spec == Init /\ [][Next]_vars
